@@ -2,7 +2,7 @@
 import ast
 
 from ..loader import AnalysisError, attr_path, src, walk_no_nested_defs, norm_stmt, call_name
-from ..symx import SymX, classify, show, C, TRUE, FALSE, simp, is_const
+from ..symx import SymX, classify, show, C, TRUE, FALSE, simp, is_const, mentions
 from . import C02, C11, C12, shared
 
 EXPLANATION = (
@@ -73,8 +73,40 @@ def _split_lines(arg):
     return out
 
 
+def _lossy(sx, val, depth=0):
+    """A conversion inside the written value that drops digits: a format with a precision, round(), int(), %-formatting with a
+    precision - also inside the comprehensions the value is joined from.  The offending sub-term, or None."""
+    import re as _re
+    for x in C02._sub(val):
+        if x[0] == "fmt" and len(x) > 3 and x[3] not in (None, "", "''") and _re.search(r"\.\d+[eEfFgG%]?|[eEfFgG%]$", str(x[3]).strip("'")):
+            return x
+        if x[0] == "call" and x[1] in ("round", "int", "math.floor", "math.ceil", "math.trunc"):
+            return x
+        if x[0] == "binop" and x[1] == "Mod" and is_const(x[2]) and isinstance(x[2][1], str) and _re.search(r"%[-+0 #]*\d*\.\d+[eEfFgG]", x[2][1]):
+            return x
+        if x[0] == "mcall" and x[2] == "format" and is_const(x[1]) and isinstance(x[1][1], str) and _re.search(r"\{[^}]*:[^}]*\.\d+[eEfFgG%]?\}", x[1][1]):
+            return x
+        if x[0] == "compr" and x[1] in sx.loops and depth < 3:
+            L_ = sx.loops[x[1]]
+            if L_.elt is not None:
+                r_ = _lossy(sx, L_.elt, depth + 1)
+                if r_ is not None:
+                    return r_
+    return None
+
+
 def r1234_writer(ctx, chk):
     f = ctx.func(SAVE)
+    # options of the writer (an appendix, an extra line that is off by default) are judged at their defaults - but only when no call
+    # in the program sets them: the property describes the report the command line produces
+    from ..ctxbind import with_defaults
+    set_somewhere = set()
+    for g_ in ctx.prog.all_funcs(("conditionalrewards.py",)):
+        for call_, cs_ in ctx.cg.call_sites(g_):
+            if any(c_.qual == f.qual for c_ in cs_):
+                set_somewhere |= {k.arg for k in call_.keywords if k.arg} | set([p_ for p_ in f.params][2:len(call_.args)])
+    if not (set_somewhere & set(f.params[2:])):
+        f, _bound = with_defaults(ctx, f, keep=2, accept=lambda v: v is None or isinstance(v, (bool, int, float, str)))
     sx = SymX(ctx, f, inline_depth=3, unroll_literals=True).run()      # helpers (also generators / local functions / label tables) are judged by their content
     loops = [l for l in sx.loops.values() if l.kind == "for"]
     res_param, fname_param = ("v", f.params[0]), ("v", f.params[1])
@@ -116,15 +148,20 @@ def r1234_writer(ctx, chk):
     L = loops[0]
     where = f.where(L.node)
     # C16.4: iteration
+    keys_loop = L.source == res_param and L.whole and not L.has_break and not L.has_return and L.cont == FALSE
     if L.source == ("mcall", res_param, "items", (), ()) and L.whole and not L.has_break and not L.has_return and L.cont == FALSE:
         chk.ok("C16.4", where, "one block per entry, in insertion order: `for name, game in %s.items()` (no sort, filter or early exit)" % f.params[0])
+    elif keys_loop:
+        chk.ok("C16.4", where, "one block per entry, in insertion order: `for name in %s` (no sort, filter or early exit)" % f.params[0])
     else:
         chk.violation("C16.4", where, "blocks are produced by iterating `%s`%s; specification: every entry of the result dict in run order" % (
             show(L.source), " with early exit" if (L.has_break or L.has_return or L.cont != FALSE) else ""), expected="%s.items()" % f.params[0], found=show(L.source),
             construct="save_results iteration")
     name_t = simp(("idx", ("elem", L.id), C(0)))
     entry_t = simp(("idx", ("elem", L.id), C(1)))
-    raw = [e for e in L.effects if e[1] == "call" and e[2][0] == "mcall" and e[2][2] in ("write", "writelines")]
+    if keys_loop:
+        name_t, entry_t = ("elem", L.id), simp(("idx", res_param, ("elem", L.id)))
+    raw = [e for e in L.effects if e[1] == "call" and e[2][0] == "mcall" and e[2][2] in ("write", "writelines") and e[0] != FALSE]
     writes = []
     for cond, kind, call in raw:
         if call[2] == "write":
@@ -219,6 +256,16 @@ def r1234_writer(ctx, chk):
             if spec_row[0] == "key" and keys_in and keys_in[0] != spec_row[1] and val == simp(("idx", entry_t, C(keys_in[0]))):
                 chk.violation(rule, where, "under the label %r the report prints the entry's %r, not its %r: two outputs are exchanged" % (label, keys_in[0], spec_row[1]),
                               expected="game[%r]" % spec_row[1], found="game[%r]" % keys_in[0], construct="save_results label %s key" % label)
+            elif _lossy(sx, val):
+                chk.violation("C16.2", where, "the value under %r passes through `%s` before it is written: it no longer reads back to what was computed" % (label, show(_lossy(sx, val))[:80]),
+                              expected=show(want), found=show(val)[:140], construct="save_results transformed %s" % label)
+            elif mentions(val, lambda x: x[0] in ("compr", "res", "apply") or (x[0] == "idx" and x[1][0] in ("compr", "res", "ite"))):
+                chk.undecided(rule, where, "under the label %r the report prints `%s`: read through a container built on the way, not resolved to `%s`" % (label, show(val)[:80], show(want)))
+            elif wrapped and not [w_ for w_ in wrapped if not ((w_[0] == "call" and w_[1] in ("repr", "str", "type", "isinstance", "all", "any", "list", "tuple", "len", "bool"))
+                                                                or (w_[0] == "mcall" and w_[2] in ("join",)))]:
+                # only repr / str / type tests / join: a formatter that spells the value out itself; whether it spells it exactly as the
+                # default conversion does is not decided here (rounding, %-formats and precision specs are - see below)
+                chk.undecided("C16.2", where, "the value under %r is written by a formatter of its own (`%s`): that it reads back to what was computed is not decided" % (label, show(wrapped[0])[:60]))
             elif wrapped:
                 chk.violation("C16.2", where, "the value under %r passes through `%s` before it is written: it no longer reads back to what was computed" % (label, show(wrapped[0])[:80]),
                               expected=show(want), found=show(val)[:140], construct="save_results transformed %s" % label)
@@ -248,8 +295,12 @@ def r1234_writer(ctx, chk):
         if u is not None and u[0] == "setitem" and u[3][0] == "dict":
             written = {k[1] for k, _ in u[3][1] if is_const(k)}
             splat = any(not is_const(k) for k, _ in u[3][1])
+            unresolved_reads = any(mentions(call, lambda x: x[0] == "idx" and is_const(x[2]) and isinstance(x[2][1], str) and x[1] != entry_t and x[1][0] in ("ite", "idx", "compr", "res"))
+                                   for _, _, call in writes)
             if splat:
                 chk.undecided("C16.3", f.where(), "run_games builds entries with a ** splat: key set not statically known")
+            elif unresolved_reads and (written - read_keys):
+                chk.undecided("C16.3", f.where(), "the report reads entries through a container that is not resolved: which keys it reads is not known")
             elif read_keys <= written and written <= read_keys:
                 chk.ok("C16.3", f.where(), "keys read by the report writer = keys written by run_games (%d keys)" % len(written))
             elif read_keys - written:
